@@ -28,7 +28,10 @@ having issued* (mapping() of each obfuscator + the password mask):
 everything else is counted under an `unclaimed:*` label and not asserted (DESIGN C08 X).  One class has no
 delimiter rule: *every* textual occurrence of the system's short name counts ("no occurrence of the system's
 short ... host name"; the unchanged obfuscator ends with a plain str.replace) - the content also carries the
-short name inside longer words (rhel_<name>-root, <name>pool, prod<name>, x.<name>.lan)."""
+short name inside longer words (rhel_<name>-root, <name>pool, prod<name>, x.<name>.lan).  Full names (FQDN, other
+hosts of the domain) count unless glued to *another label*: a lone dot next to the name - the root dot of the
+absolute spelling `name.` (dig / host / zone files / PTR, SRV, MX records), the full stop of a sentence ending in
+the name, the leading dot of a suffix list `.name` - is not a label, and such occurrences are generated too."""
 import contextlib
 import json
 import logging
@@ -69,7 +72,10 @@ RULE = ("tagged lines built from delimited tokens (IPv4 incl. textual prefix/suf
         "line start/end, or a repeated token, or two IPs where one is a textual prefix/suffix of the other, or a "
         "keyword inside a host name, or a line that had to be redacted next to one that had to stay, or the system's "
         "short name inside a longer word: glued to letters / digits / '-' / '_' / '.' on either side - volume-group, "
-        "pool, log and interface names built from the machine's name - at any part boundary of a line); distinct by "
+        "pool, log and interface names built from the machine's name - at any part boundary of a line, or a full name "
+        "(FQDN / other host of the domain) next to a lone dot: the rooted spelling `name.` of DNS tools and zone files, a "
+        "name that ends a sentence, `.name` in a suffix list - the dot followed / preceded by the line's edge, a blank, "
+        "a bracket, quote or other punctuation); distinct by "
         "(rendered content, configuration, entry point).")
 ASSUMPTIONS = [
     "Python's re.search is the reference matcher for regex exclusion patterns (POSIX bracket classes are "
@@ -99,7 +105,9 @@ ASSUMPTIONS = [
 EXCLUDED = [
     "MAC glued to ':' '-' or a hex digit (would be a longer address; the pattern's look-arounds exclude it)",
     "IPv4 glued to a word character or to '.<digit>'; octets with leading zeros; first octet 0",
-    "FQDN / other host of the domain glued to another label character ([A-Za-z0-9_.-]) (not the short name: "
+    "FQDN / other host of the domain glued to another label: neighbour in [A-Za-z0-9_-], or a '.' that has a label "
+    "character or another '.' / '-' on its far side (a lone dot - root dot, full stop, leading dot of a suffix list - "
+    "is not a label: those occurrences count) (not the short name: "
     "every occurrence of it counts); upper-/mixed-case variants of the system "
     "name; the bare domain without a host label",
     "secrets containing characters outside the masker's class; Password/PASSWORD keys; separators other than "
@@ -189,6 +197,17 @@ def selftest():
     assert _claimed(c, "short", "prodweb01", 4, 9) and _claimed(c, "short", "web01pool", 0, 5) and _claimed(c, "short", "x.web01.lan", 2, 7)
     assert not _claimed(c, "short", "prodweb02", 4, 9) and not _claimed(c, "fqdn", "xweb01.corp.acme.org", 1, 20)
     assert not _claimed(c, "host", "db.corp.acme.org-x", 0, 16) and not _claimed(c, "ip", "v1.2.3.4", 1, 8)
+    # a full name next to a lone dot is an occurrence; next to a dot that leads to another label it is not
+    for text, s0, e0, want in (("db.corp.acme.org.", 0, 16, True), ("to db.corp.acme.org. 3600 IN", 3, 19, True),
+                               ("(db.corp.acme.org.)", 1, 17, True), ("no_proxy=.db.corp.acme.org,x", 10, 26, True),
+                               (".db.corp.acme.org", 1, 17, True), ("db.corp.acme.org.au", 0, 16, False),
+                               ("db.corp.acme.org..", 0, 16, False), ("db.corp.acme.org.-", 0, 16, False),
+                               ("x.db.corp.acme.org", 2, 18, False), ("..db.corp.acme.org", 2, 18, False),
+                               ("db.corp.acme.org.\n", 0, 16, True), ("db.corp.acme.org_", 0, 16, False)):
+        assert _claimed(c, "host", text, s0, e0) == want, text
+        assert text[s0:e0] == "db.corp.acme.org"
+    assert all(_claimed(c, k, "a " + "web01.corp.acme.org" + d, 2, 21) == tg.claimed(k, "a " + "web01.corp.acme.org" + d, 2, 21)
+               for k in ("fqdn", "host") for d in tg.ALL_DELIMS if d != ".")
     for g in GLUE_LEFT + GLUE_RIGHT + _WORD_LEFT + _WORD_RIGHT:
         assert (re.match(r"[a-z0-9_.-]*\Z", g) or g in _WORD_LEFT + _WORD_RIGHT) and "password" not in g, g
         for s in tg.HOST_STEMS + tg.EMITTED_WORDS:
@@ -677,12 +696,39 @@ def _claimed(case, kind, rendered, start, end, part=None):
     its own idea of where a name starts)."""
     if kind == "short" and rendered[start:end] and rendered[start:end] == _short_of(case["fqdn"]):
         return True
+    if kind in ("fqdn", "host") and rendered[start:end]:
+        return _host_delimited(rendered, start, end)
     return tg.claimed(kind, rendered, start, end, part)
+
+
+_LABEL_CHARS = frozenset(tg.WORD | set(".-"))
+
+
+def _host_delimited(rendered, start, end):
+    """a full name (system FQDN / other host of the domain) is an occurrence unless it is glued to *another
+    label* (DESIGN C08 X: "a host name glued to another label"): the neighbour is the line's edge, a character
+    no label is made of - or a lone '.' that is itself followed (on the left: preceded) by the line's edge or a
+    non-label character.  Such a dot does not continue the name, there is no label behind it: it is the root dot
+    of the absolute spelling (`smtp.corp.acme.org.` in dig / host / zone files / PTR and SRV records), the full
+    stop of a sentence that ends in a host name, or the leading dot of a suffix list (no_proxy=.db.corp.acme.org).
+    (textgen.claimed knows the same rule for IPv4 - "a trailing sentence dot" - but not for names.)"""
+    def free(ch, ch2):
+        if ch in ("", "\n") or ch not in _LABEL_CHARS:
+            return True
+        return ch == "." and (ch2 in ("", "\n") or ch2 not in _LABEL_CHARS)
+    left = (rendered[start - 1] if start > 0 else "", rendered[start - 2] if start > 1 else "")
+    right = (rendered[end] if end < len(rendered) else "", rendered[end + 1] if end + 1 < len(rendered) else "")
+    return free(*left) and free(*right)
 
 
 def _neighbour_class(ch):
     return ("line-edge" if ch in ("", "\n") else "letter" if ch.isalpha() else "digit" if ch.isdigit() else
             "hyphen" if ch == "-" else "underscore" if ch == "_" else "dot" if ch == "." else None)
+
+
+def _after_class(ch):
+    return ("line-edge" if ch in ("", "\n") else "blank" if ch in " \t" else "tag" if ch == "#" else
+            "bracket-or-quote" if ch in "()[]{}<>'\"" else "punctuation")
 
 
 def _pattern_hits(case, lines):
@@ -817,7 +863,7 @@ def check_clean(case):
     # claimed occurrences per class
     claimed = dict((k, {}) for k in ("ip", "mac", "short", "fqdn", "host", "pw"))   # text -> [line idx]
     classes_per_line = []
-    edge = repeated = glued_short = False
+    edge = repeated = glued_short = dotted_host = False
     all_host_spans = []
     for idx, (ln, l) in enumerate(zip(case["lines"], lines)):
         kinds_here = set()
@@ -838,6 +884,13 @@ def check_clean(case):
                 for side, ch in (("left", l[s - 1] if s > 0 else ""), ("right", l[e] if e < len(l) else "")):
                     if _neighbour_class(ch) not in (None, "line-edge"):
                         labels.add("short:glued:%s=%s" % (side, _neighbour_class(ch)))
+            if kind in ("fqdn", "host") and not tg.claimed(kind, l, s, e, part):
+                # a lone dot next to the name (root dot / full stop / leading dot of a suffix list)
+                dotted_host = True
+                if l[e:e + 1] == ".":
+                    labels.add("%s:trailing-dot:then=%s" % (kind, _after_class(l[e + 1:e + 2])))
+                if s > 0 and l[s - 1] == ".":
+                    labels.add("%s:leading-dot:after=%s" % (kind, _after_class(l[s - 2:s - 1] if s > 1 else "")))
             key = part[2] if kind == "pw" else text
             claimed[kind].setdefault(key, []).append(idx)
             kinds_here.add("host" if kind in tg.HOST_KINDS else kind)
@@ -995,7 +1048,8 @@ def check_clean(case):
     for flag, name in ((multi, "nt:multi-class-line"), (edge, "nt:token-at-line-edge"), (repeated, "nt:repeated-token"),
                        (prefix_pair, "nt:ip-prefix-pair"), (kw_in_host, "nt:keyword-in-hostname"),
                        (mixed_redact, "nt:redacted-next-to-kept"),
-                       (glued_short and "short" in active, "nt:short-name-inside-longer-word")):
+                       (glued_short and "short" in active, "nt:short-name-inside-longer-word"),
+                       (dotted_host and bool(active & set(["fqdn", "host"])), "nt:full-name-next-to-a-lone-dot")):
         if flag:
             labels.add(name)
     if case.get("width"):
@@ -1005,7 +1059,7 @@ def check_clean(case):
     if not out:
         labels.add("empty-output")
     nontrivial = (bool(active) and (multi or edge or repeated or prefix_pair or kw_in_host)) or mixed_redact \
-        or (glued_short and "short" in active)
+        or (glued_short and "short" in active) or (dotted_host and bool(active & set(["fqdn", "host"])))
     key = {"lines": lines, "entry": case["entry"], "obf": obf, "no_obf": sorted(no_obf), "kw": kws,
            "pat": case.get("patterns"), "nr": bool(case.get("no_redact")), "al": case.get("allowlist"),
            "w": bool(case.get("width")), "fqdn": case["fqdn"], "ns": case.get("name_source"),
@@ -1269,6 +1323,28 @@ def _embed_short(draw, lines, short, width):
         ln["parts"][at:at] = [p for p in word if p[1]]
 
 
+def _dot_names(draw, lines):
+    """full names (system FQDN, other hosts of the domain) next to a lone dot: the absolute spelling with the
+    root dot (`name.`, what dig / host / named zone files / PTR, SRV, MX records print), a name that ends a
+    sentence, the leading dot of a suffix list (`.name`).  The dot is put in only where what follows (precedes)
+    it is the line's edge or a character no label is made of - so it never joins the name to another label and
+    never touches a neighbouring token (between two tokens there is always a non-empty gap)"""
+    for ln in lines:
+        parts = ln["parts"]
+        i = 0
+        while i < len(parts):
+            if parts[i][0] in ("fqdn", "host"):
+                nxt = "".join(p[1] for p in parts[i + 1:])[:1] or ("#" if ln.get("tagpos", "start") == "end" else "")
+                prv = "".join(p[1] for p in parts[:i])[-1:] or ("#" if ln.get("tagpos", "start") != "end" else "")
+                if (nxt == "" or nxt not in _LABEL_CHARS) and draw(st.sampled_from([True, True, False])):
+                    # ... often with white space behind it, as in the columns of a zone file / between sentences
+                    parts.insert(i + 1, ["fill", draw(st.sampled_from([".", ".", ".", ". ", ".\t"]))])
+                if (prv == "" or prv not in _LABEL_CHARS) and draw(tg.rarely(4)):
+                    parts.insert(i, ["fill", "."])
+                    i += 1
+            i += 1
+
+
 @st.composite
 def _case(draw, tier):
     w = recase_world(draw(tg.world()), draw(st.sampled_from(_SHORT_STYLES)), draw(st.sampled_from(_DOMAIN_STYLES)))
@@ -1286,6 +1362,8 @@ def _case(draw, tier):
             ln["parts"].append(["fill", draw(st.sampled_from([" ", "\t", ", "])) + draw(st.sampled_from(LOCAL_WORDS))])
     if draw(tg.rarely(3)):
         _embed_short(draw, lines, _short_of(w["fqdn"]), width)
+    if not width and "." in w["fqdn"] and draw(tg.rarely(3)):
+        _dot_names(draw, lines)
     rendered = tg.render(lines)
     entry = draw(st.sampled_from(["list", "file", "file", "str", "file", "write", "write", "textfile", "textfile", "write"]))
     obf = {"obfuscate": not draw(tg.rarely(6)), "hostname": not draw(tg.rarely(6)),
@@ -1429,6 +1507,13 @@ REGRESSIONS = [
                  ["fill", " "], ["short", "node-7"], ["fill", "b ("], ["fqdn", "node-7.lab.rhtest.net"], ["fill", ")"]]),
         _ln(91, [["short", "node-7"], ["fill", "2.lan|x."], ["short", "node-7"], ["fill", " 0"], ["short", "node-7"]], "end")],
         fqdn="node-7.lab.rhtest.net", entry="textfile", eols=["\n"])),
+    # full names next to a lone dot: rooted spelling of DNS tools / zone files, end of a sentence, suffix list
+    Reg("full-names-next-to-a-lone-dot", "clean", _reg([
+        _ln(95, [["host", "mx2.int.big-co.io"], ["fill", "."], ["fill", "\t300 IN A "], ["ip", "172.16.9.1"]]),
+        _ln(96, [["fill", "lost link to "], ["host", "a-b.x_1.int.big-co.io"], ["fill", "."]]),
+        _ln(97, [["fill", "skip=."], ["fqdn", "gate-7.int.big-co.io"], ["fill", ",."], ["host", "mx2.int.big-co.io"],
+                 ["fill", ". ("], ["fqdn", "gate-7.int.big-co.io"], ["fill", ".)"]], "end")],
+        fqdn="gate-7.int.big-co.io", entry="file")),
     Reg("no-redact-still-obfuscates", "clean", _reg([
         _ln(5, [["fill", "hop "], ["ip", "192.168.1.77"], ["fill", " "], ["short", "web01"]])],
         no_redact=True, patterns={"mode": "plain", "items": ["hop"]}, entry="write")),
